@@ -177,7 +177,8 @@ func (edb *EventDb) updateAuthorizersTotalMint(mints []state.Mint) error {
 		totalMint []int64
 	)
 	for _, m := range mints {
-		ids = append(ids, m.ToClientID)
+		// the authorizer that signed the mint is carried in Minter (see TagAddBridgeMint)
+		ids = append(ids, m.Minter)
 		amt, err := m.Amount.Int64()
 		if err != nil {
 			return err
